@@ -224,7 +224,9 @@ def rand_case(rng):
     kw = pairs(rng.randint(0, 5))
     ops = []
     for _ in range(rng.randint(0, 10) if rng.random() < 0.6 else 0):
-        if rng.random() < 0.5:
+        if rng.random() < 0.1:
+            ops.append({"op": "continue_on_copy", "how": rng.choice(["copy", "tagify"])})
+        elif rng.random() < 0.5:
             ops.append({"op": "update", "args": [{"d": pairs(rng.randint(0, 3))} for _ in range(rng.randint(0, 2))], "kw": pairs(rng.randint(0, 3))})
             if rng.random() < 0.15:
                 ops[-1]["self_at"] = rng.randint(0, 2)
